@@ -14,7 +14,9 @@ func (github.com/cosmos/cosmos-sdk/codec.BinaryCodec).MustUnmarshal
     params cdc, bz, ptr
     requires denom: typeis(ptr, *LDenom)
     modifies *cast(ptr, *LDenom)
-    ensures *cast(ptr, *LDenom) == ld_decode(bz)
+    // the generated gogoproto Unmarshal does not reset its receiver: scalar fields are overwritten, entries of the repeated field
+    // LockupPeriods are APPENDED to what the target already holds. Only a target whose repeated field is empty ends up as the decoding.
+    ensures len(old(cast(ptr, *LDenom).LockupPeriods)) == 0 ==> *cast(ptr, *LDenom) == ld_decode(bz)
 
 // the result is the decoded enumeration of the denom store, entry by entry and in store order: nothing dropped, nothing added
 func (Keeper).GetAllDenoms
